@@ -367,9 +367,14 @@ func extractPaddingFromData(data []byte, pubKeySize, sigKeySize int) []byte {
 	if paddingSize <= 0 {
 		return nil
 	}
-	padding := make([]byte, paddingSize)
 	pubPaddingSize := KEYS_AND_CERT_PUBKEY_SIZE - pubKeySize
 	sigPaddingSize := KEYS_AND_CERT_SPK_SIZE - sigKeySize
+	if pubPaddingSize < 0 || sigPaddingSize < 0 {
+		// A key larger than its inline field (e.g. P521 or RSA signing keys) leaves no
+		// well-defined padding; the caller rejects such keys right after.
+		return nil
+	}
+	padding := make([]byte, paddingSize)
 	// Crypto key is start-aligned; padding follows at offset pubKeySize
 	if pubPaddingSize > 0 {
 		copy(padding[:pubPaddingSize], data[pubKeySize:KEYS_AND_CERT_PUBKEY_SIZE])
